@@ -31,6 +31,7 @@ class Net:
         rt.activate(self.w)
         self.bus = Bus(self.w, base_lat=sc.get('base_lat', 1e-3), lat_grid=sc.get('lat_grid'))
         self.bus.send_cost = sc.get('send_cost', 0.0)
+        self.bus.send_visible = sc.get('send_visible', 1.0)
         self.rec = Rec(self.w)
         self.stacks = []
         self.owner = {}          # address -> (stack index, ca)
